@@ -131,4 +131,23 @@ CHECKS = {
              "outside": "Stop racing with Enqueue at sub-call granularity"},
         ],
     },
+    "C14": {
+        "assumptions": COMMON_ASSUMPTIONS + [
+            "the import source is an in-memory HeaderImportSource (file/HTTP/mmap sources and metadata (de)serialisation are outside the claim); the target stores are slice-backed models of headerfs.BlockHeaderStore/FilterHeaderStore with positional append (their conformance with the real stores is the subject of C07) and an injected failure of the n-th WriteHeaders call",
+            "btcd's proof-of-work test (checkProofOfWork) is an uninterpreted predicate of the header hash; the rest of CheckBlockHeaderSanity/CheckBlockHeaderContext/CalcPastMedianTime runs as real SSA under regtest-like parameters (PoWNoRetargeting), so the difficulty rule is Bits == PowLimitBits",
+            "the clock is concrete (2023-11-14 + k s); header timestamps are in the past",
+            "the honest chain has <= 5 headers above genesis; a corrupted file stays self-consistent above the corrupted position",
+        ],
+        "groups": [
+            {"name": "import", "pkg": "chainimport", "harness_dir": "chainimport", "common": ["pow"], "harness": "VerifH_C14_import",
+             "inits": ["github.com/lightninglabs/neutrino/chainimport", "io", "github.com/btcsuite/btcd/wire/v2", "github.com/btcsuite/btcd/chainhash/v2",
+                       "github.com/lightninglabs/neutrino/chainsync", "github.com/lightninglabs/neutrino/headerfs", "bytes"],
+             "anchored_files": ["chainimport/headers_import.go", "chainimport/iter.go", "chainimport/block_headers_validator.go",
+                                "chainimport/filter_headers_validator.go", "chainimport/utils.go"],
+             "params": {"maxtip": 2, "maxstart": 2, "maxcount": 3, "maxbatch": 2, "corruptions": 3, "faults": 1, "maxheight": 5},
+             "thorough": {"params": {"maxtip": 3, "maxstart": 3, "maxcount": 4, "maxbatch": 3, "corruptions": 3, "faults": 1, "maxheight": 6}},
+             "must_reach": {"VerifH_C14_import": ["import-succeeded", "import-failed"]},
+             "outside": "file start > 3, more than 4 headers, batch size > 3, more than one injected write failure, the real file/HTTP sources"},
+        ],
+    },
 }
